@@ -10,7 +10,8 @@ import gen
 RULE = ('every (pipe, data, model) with pipe*data*model ≤ N, every local rank, random cost dictionaries with ties: '
         'one real GPTNeoXAssignment per rank on the stub DeepSpeed topology with a recording dist.new_group; every '
         'public query and the new_group sequence compared with the Lean model; non-trivial = at least two axes > 1 '
-        'and ≥ 2 layers')
+        'and ≥ 2 layers'
+        '; stages without any registered layer; several assignments built in one process')
 TRUSTED = [
     'Lean 4.33 kernel; axioms audited ⊆ {propext, Classical.choice, Quot.sound}',
     'hand-written model KV.Neox tied to kfac/gpt_neox/assignment.py and mpu.get_group_with_rank by this correspondence',
